@@ -86,9 +86,11 @@ def rstripC (c : Char) : Str → Str
     let r := rstripC c xs
     if r.isEmpty && x = c then [] else x :: r
 
-/-- Python's ASCII white space for `str.strip()` / `int()` -/
+/-- the ASCII white space that `int()` strips (CPython `Py_ISSPACE` / `_PyUnicode_IsWhitespace` as reached from
+    `int(str)`): exactly 9–13 and 32.  NOT `str.strip()`'s set: `str.strip()` also strips 0x1c–0x1f, `int()` does not
+    (`int("0\x1f")` raises ValueError on CPython 3.12). -/
 def isPySpace (c : Char) : Bool :=
-  c.toNat = 32 || (9 ≤ c.toNat && c.toNat ≤ 13) || (28 ≤ c.toNat && c.toNat ≤ 31)
+  c.toNat = 32 || (9 ≤ c.toNat && c.toNat ≤ 13)
 
 def lstripWs : Str → Str
   | [] => []
